@@ -29,6 +29,13 @@
                     gettimeofday during the wait is flagged "!walltime"), and poll()
                     on the client's socket never sleeps: if nothing is readable the next batch is written to the peer's
                     socket (or, for '-', poll returns 0 at once).  Every timeout handed to poll() is printed (q<ms>).
+     TT,<a>,<b>,<k>:<target>:<tag>+...
+                    two threads: thread A calls dbus_pending_call_block (call a); when A sleeps in poll() (it owns the I/O
+                    path) thread B calls dbus_pending_call_block (call b) and ends up waiting for the I/O path
+                    (pthread_cond_wait on io_path_cond, seen through an interposed pthread_cond_wait); then the peer writes
+                    all the listed messages in ONE write and A's poll returns.  Gated with semaphores, no timing.  A thread
+                    that goes to sleep in poll() once more with nothing left to arrive prints "!sleep" (and is woken by an
+                    extra signal so that the run ends).  Output: A[<A's observations>]B[<B's observations>].
      X              peer closes its end (after draining what the client sent)
      L              dbus_connection_close (client)
    Result: per event "<observations>|<per-call state>", joined by ';'.
@@ -39,6 +46,9 @@
 #include <signal.h>
 #include <pthread.h>
 #include <poll.h>
+#include <semaphore.h>
+#include <dlfcn.h>
+#include <errno.h>
 #include <sys/time.h>
 #include <time.h>
 #include <sys/syscall.h>
@@ -49,9 +59,21 @@
 
 static char out[OUTSZ];
 static size_t outn;
+#define TLSZ 2048
+static __thread char *tl_out;       /* when set, observations made on this thread go here (two-thread schedules) */
+static __thread size_t tl_n;
 static void emit (const char *fmt, ...)
 {
   va_list ap; int n;
+  if (tl_out)
+    {
+      va_start (ap, fmt);
+      n = vsnprintf (tl_out + tl_n, TLSZ - tl_n, fmt, ap);
+      va_end (ap);
+      if (n > 0) tl_n += (size_t) n;
+      if (tl_n >= TLSZ) tl_n = TLSZ - 1;
+      return;
+    }
   va_start (ap, fmt);
   n = vsnprintf (out + outn, OUTSZ - outn, fmt, ap);
   va_end (ap);
@@ -353,6 +375,39 @@ static void ev_block_with (int i, char *spec)
   nbw = 0;
 }
 
+/* ---- two threads blocking on two calls of one connection ---- */
+static int tt_active, tt_a_polled, tt_b_posted;
+static pthread_t tt_thA, tt_thB;
+static sem_t tt_a_inpoll, tt_a_go, tt_b_waiting;
+static struct batch tt_wake;
+static char tt_bufA[TLSZ], tt_bufB[TLSZ];
+static int tt_ca, tt_cb;
+
+int pthread_cond_wait (pthread_cond_t *c, pthread_mutex_t *m)
+{
+  static int (*real) (pthread_cond_t *, pthread_mutex_t *);
+  if (!real) real = (int (*) (pthread_cond_t *, pthread_mutex_t *)) dlvsym (RTLD_NEXT, "pthread_cond_wait", "GLIBC_2.3.2");
+  if (!real) real = (int (*) (pthread_cond_t *, pthread_mutex_t *)) dlsym (RTLD_NEXT, "pthread_cond_wait");
+  if (tt_active && !tt_b_posted && pthread_equal (pthread_self (), tt_thB)) { tt_b_posted = 1; sem_post (&tt_b_waiting); }
+  return real (c, m);
+}
+
+static void *tt_run (void *arg)
+{
+  int is_a = (arg == (void *) 0);
+  tl_out = is_a ? tt_bufA : tt_bufB; tl_n = 0; tl_out[0] = 0;
+  dbus_pending_call_block (calls[is_a ? tt_ca : tt_cb].p);
+  tl_out = NULL;
+  return NULL;
+}
+
+static int sem_wait_5s (sem_t *s)
+{
+  struct timespec ts; syscall (SYS_clock_gettime, CLOCK_REALTIME, &ts); ts.tv_sec += 5;
+  while (sem_timedwait (s, &ts) != 0) { if (errno != EINTR) return 0; }
+  return 1;
+}
+
 /* ---- block under a scripted clock ---- */
 #define MAXCLK 16
 static int bt_active, bt_cfd = -1, bt_pfd = -1;
@@ -389,6 +444,24 @@ int gettimeofday (struct timeval *tv, void *tz)
 
 int poll (struct pollfd *fds, nfds_t n, int timeout)
 {
+  if (tt_active && n == 1 && fds[0].fd == bt_cfd)
+    {
+      int r;
+      emit ("q%d", timeout);
+      r = (int) syscall (SYS_poll, fds, n, 0);
+      if (r != 0) return r;
+      if (!tt_a_polled && pthread_equal (pthread_self (), tt_thA))
+        {
+          tt_a_polled = 1;
+          sem_post (&tt_a_inpoll);
+          sem_wait_5s (&tt_a_go);
+          return (int) syscall (SYS_poll, fds, n, 2000);
+        }
+      /* nothing readable and nothing more will be written: this thread is about to sleep for good */
+      emit ("!sleep");
+      { size_t off = 0; while (off < tt_wake.len) { ssize_t w = write (bt_pfd, tt_wake.buf + off, tt_wake.len - off); if (w <= 0) break; off += (size_t) w; } }
+      return (int) syscall (SYS_poll, fds, n, 2000);
+    }
   if (bt_active && n == 1 && fds[0].fd == bt_cfd)
     {
       int r;
@@ -446,6 +519,33 @@ static void ev_block_timed (int i, char *clocks, char *arrivals)
   bt_narr = 0;
 }
 
+static void ev_two_threads (int a, int b, char *spec)
+{
+  struct batch wr; char *it, *save = NULL; size_t off = 0; struct timespec ts; int okA, okB;
+  if (a >= ncalls || b >= ncalls || a == b) { emit ("TT-"); return; }
+  if (!sconn || !dbus_connection_get_is_connected (sconn) || !dbus_connection_get_unix_fd (sconn, &bt_pfd)
+      || !dbus_connection_get_unix_fd (client, &bt_cfd)) { emit ("TT-"); return; }
+  wr.buf = NULL; wr.len = 0;
+  for (it = strtok_r (spec, "+", &save); it; it = strtok_r (NULL, "+", &save)) batch_add (&wr, it);
+  tt_wake.buf = NULL; tt_wake.len = 0; batch_add (&tt_wake, "s:#0:999999");
+  tt_ca = a; tt_cb = b; tt_a_polled = tt_b_posted = 0; tt_bufA[0] = tt_bufB[0] = 0;
+  sem_init (&tt_a_inpoll, 0, 0); sem_init (&tt_a_go, 0, 0); sem_init (&tt_b_waiting, 0, 0);
+  tt_active = 1;
+  tt_thB = pthread_self ();
+  pthread_create (&tt_thA, NULL, tt_run, (void *) 0);
+  okA = sem_wait_5s (&tt_a_inpoll);
+  pthread_create (&tt_thB, NULL, tt_run, (void *) 1);
+  okB = sem_wait_5s (&tt_b_waiting);
+  while (off < wr.len) { ssize_t w = write (bt_pfd, wr.buf + off, wr.len - off); if (w <= 0) break; off += (size_t) w; }
+  sem_post (&tt_a_go);
+  syscall (SYS_clock_gettime, CLOCK_REALTIME, &ts); ts.tv_sec += 20;
+  if (pthread_timedjoin_np (tt_thA, NULL, &ts) != 0 || pthread_timedjoin_np (tt_thB, NULL, &ts) != 0)
+    { emit ("!hang"); puts (out); fflush (stdout); _exit (96); }
+  tt_active = 0;
+  emit ("%s%sA[%s]B[%s]", okA ? "" : "!noApoll", okB ? "" : "!noBwait", tt_bufA, tt_bufB);
+  free (wr.buf); free (tt_wake.buf);
+}
+
 static int argi (const char *s) { return atoi (s); }
 
 static void run_event (char *ev)
@@ -468,6 +568,7 @@ static void run_event (char *ev)
       { int i = argi (f[1]); if (i < ncalls) dbus_pending_call_block (calls[i].p); break; }
     case 'D': { DBusDispatchStatus s = dbus_connection_dispatch (client); emit ("d%d", (int) s); break; }
     case 'T':
+      if (f[0][1] == 'T') { if (nf >= 4) ev_two_threads (argi (f[1]), argi (f[2]), f[3]); break; }
       {
         int i = argi (f[1]);
         if (i >= ncalls) { emit ("t-"); break; }
@@ -492,6 +593,7 @@ int main (void)
   signal (SIGPIPE, SIG_IGN);
   setvbuf (stdout, NULL, _IOLBF, 0);
   dbus_error_init (&err);
+  dbus_threads_init_default ();
   server = dbus_server_listen ("unix:tmpdir=/tmp", &err);
   if (!server) { fprintf (stderr, "listen: %s\n", err.message); return 3; }
   dbus_server_set_watch_functions (server, srv_add_watch, srv_remove_watch, srv_toggle_watch, NULL, NULL);
